@@ -918,7 +918,7 @@ func runAqua(c *fw.Ctx) {
 		return
 	}
 	dense := c.Thorough()
-	rounds := c.Pick(2, 40)
+	rounds := c.Pick(2, 16)
 	sessionNo := 0
 	// runList: sessions of a few messages each; a session ends when the peer is dropped
 	runList := func(label string, r *fw.Rand, msgs []amsg) {
